@@ -33,6 +33,11 @@ def floaty(t):
     return t is float or nm in ("float", "float64", "float32", "double", "f8", "longdouble", "b_float")
 
 
+def is_int_type(t):
+    nm = getattr(t, "name", None) or (t if isinstance(t, str) else getattr(t, "__name__", None))
+    return t is int or nm in ("int", "int8", "int16", "int32", "int64", "intp", "uint8", "uint16", "uint32", "uint64", "integer", "i8", "i4")
+
+
 class ModelError(Exception):
     """construct outside the modelled subset (=> undecided, never a violation)"""
 
@@ -162,6 +167,11 @@ class Arr:
             # a boolean array as numbers: the indicator of each element
             r = ewise(lambda c: T.mk_ind(C(c)) if isinstance(c, Cond) else (ONE if c is True else (ZERO if c is False else P(c))), self,
                       dtype="real" if floaty(t) else "int")
+            r.origin = frozenset()
+            return r
+        if self.dtype == "real" and is_int_type(t):
+            # a float array converted to an integer dtype: every element truncated towards zero
+            r = ewise(lambda a: T.app("trunc", P(a), sort="int"), self, dtype="int")
             r.origin = frozenset()
             return r
         r = self.copy()
